@@ -548,7 +548,10 @@ def main(argv=None):
     missing = []
     if baseline is not None:
         cur = {o['name'] for o in all_obls}
-        missing = [n for n in baseline.get('proved', []) if n not in cur]
+        # (contracts that are loaded in the thorough tier only are in the baseline but not in a quick run: a note is
+        # due only for a function that IS under contract in this run and lacks an obligation it had)
+        owners = {'::'.join(n.split('::')[:2]) for n in cur}
+        missing = [n for n in baseline.get('proved', []) if n not in cur and '::'.join(n.split('::')[:2]) in owners]
 
     level = 'proof' if (n_obl > 0 and n_proved + len(known_names) >= n_obl and not limits and not undecided) else 'other'
     samples = []
